@@ -238,7 +238,7 @@ class Gen:
             return r.choice([0.5, 1.5, -2.5, 2.0, 0.0, r.randrange(-3, 6), 0, S(r.choice(self.ints))])
         c = r.randrange(6)
         if c < 3:
-            return [S(r.choice(["+", "-", "*", "*"]))] + [self.num_(d - 1) for _ in range(r.choice([1, 2, 2, 3, 4]))]
+            return [S(r.choice(["+", "-", "*", "*", "/", "/"]))] + [self.num_(d - 1) for _ in range(r.choice([0, 1, 2, 2, 3, 4]))]
         if c == 3:
             return [S("let"), [[S("f"), self.num_(d - 1)]], [S(r.choice(["+", "*"])), S("f"), self.num_(d - 1)]]
         if c == 4:
